@@ -227,6 +227,8 @@ def _validate(g, pr, rnd, k=2):
                 g['harness'](cc, **g.get('params', {}))
         except sched.Infeasible:
             continue
+        except (OverflowError, FloatingPointError):
+            continue            # sample point outside double range: not a translator issue
         except Exception as e:
             mism.append('concrete run raised %r at %r' % (e, env))
             continue
